@@ -810,8 +810,45 @@ func c11Timing(idx int, r *Rng) (string, func() string) {
 // ------------------------------------------------------------------------------------------------
 // single faults and the validators outside the simulated sources
 
+// c11LongBase builds (and creates) a directory path of exactly n characters under dir.
+func c11LongBase(dir string, n int) string {
+	base := dir
+	for len(base)+1 < n {
+		k := n - len(base) - 1
+		if k > 200 {
+			k = 200
+		}
+		if k == 201 || n-len(base)-1-k == 1 { // never leave a remainder of one character ("/" + nothing)
+			k--
+		}
+		base = base + string(filepath.Separator) + strings.Repeat("d", k)
+	}
+	os.MkdirAll(base, 0755)
+	return base
+}
+
 func c11Fault(idx int, r *Rng) (string, func() string) {
-	switch r.Intn(5) {
+	switch r.Intn(6) {
+	case 5: // WriteControl START below a base path so long that the run directory or only the state file cannot be created
+		n := r.Pick(4030, 4040, 4043, 4044, 4050, 4060, 4070, 4081, 4082, 4090)
+		return fmt.Sprintf("kind fault longPath len %d", n), func() string {
+			dirp := c11Dir(idx)
+			defer os.RemoveAll(dirp)
+			h, ok := c11Start(idx, 2)
+			if !ok {
+				return "RET 0 PROBE 0 " + h.finish(true)
+			}
+			base := c11LongBase(dirp, n)
+			var reply bool
+			cfg := &dastard.WriteControlConfig{Request: "START", Path: base, WriteLJH22: true}
+			r0 := h.timed(func() error { return h.sc.WriteControl(cfg, &reply) })
+			b := false
+			r1 := h.timed(func() error { return h.sc.CoupleErrToFB(&b, &reply) })
+			probe := 1 + b2i(h.c11Feed(2, 100000, 0))
+			cfg2 := &dastard.WriteControlConfig{Request: "START", Path: filepath.Join(dirp, "data"), WriteLJH22: true}
+			r2 := h.timed(func() error { return h.sc.WriteControl(cfg2, &reply) })
+			return fmt.Sprintf("NUMS 1 %d RET 3 %d %d %d PROBE %d %s", len(base), r0, r1, r2, probe, h.finish(true))
+		}
 	case 0: // comment file cannot be created
 		return "kind fault commentFail", func() string {
 			dirp := c11Dir(idx)
